@@ -210,8 +210,15 @@ func startFunc(k *keys, msgs [][]byte, c Ctx) protocol.StartFunc {
 // attempt starts party a's sign handler for context c under rng and reads (D_i, E_i) from the
 // CBOR body of its first outgoing message, the round-2 broadcast.
 func attempt(k *keys, msgs [][]byte, c Ctx, rng io.Reader) (Commit, error) {
+	return attemptWith(startFunc(k, msgs, c), c, rng)
+}
+
+// attemptWith is attempt with a start function supplied by the caller, so that ONE start function
+// value can be used for several handlers (a retry of a failed session, or a start function kept
+// around by the application): whatever the library samples must be sampled per session.
+func attemptWith(sf protocol.StartFunc, c Ctx, rng io.Reader) (Commit, error) {
 	p, err := drv.NewParty("a", rng, func() (protocol.Handler, error) {
-		return protocol.NewMultiHandler(startFunc(k, msgs, c), sessionBytes(c.Session))
+		return protocol.NewMultiHandler(sf, sessionBytes(c.Session))
 	})
 	if err != nil {
 		return Commit{}, fmt.Errorf("handler construction refused: %v", err)
@@ -296,6 +303,18 @@ type replay struct {
 }
 
 // judgeFrostPair evaluates one pair of FROST contexts (A == B: two attempts on the same context).
+// sameStartFunc starts two sessions of context c from ONE start function value, each under its
+// own honest stream (the start function itself is created under a third one).
+func sameStartFunc(k *keys, msgs [][]byte, seed int64, mode string, c Ctx) (r1, r2 Commit, err error) {
+	drv.Use(reader(mode, seed, c.String(), 2))
+	sf := startFunc(k, msgs, c)
+	if r1, err = attemptWith(sf, c, reader(mode, seed, c.String(), 3)); err != nil {
+		return
+	}
+	r2, err = attemptWith(sf, c, reader(mode, seed, c.String(), 4))
+	return
+}
+
 func judgeFrostPair(k *keys, msgs [][]byte, seed int64, mode string, a, b Ctx, ca, cb *Commit) (sig, detail string) {
 	var x, y Commit
 	var err error
@@ -361,6 +380,13 @@ func main() {
 		case "frost-pair", "frost-same":
 			fmt.Printf("replay %s mode=%s\n A: %s\n B: %s\n", rp.Kind, rp.Mode, rp.A, rp.B)
 			sig, detail = judgeFrostPair(k, msgs, seed, rp.Mode, rp.A, rp.B, nil, nil)
+		case "frost-same-startfunc":
+			r1, r2, err := sameStartFunc(k, msgs, seed, rp.Mode, rp.A)
+			if err != nil {
+				sig, detail = "harness", err.Error()
+			} else if sig, detail = judgeFrostPair(k, msgs, seed, rp.Mode, rp.A, rp.A, &r1, &r2); sig != "" {
+				sig += "|start-function-reused"
+			}
 		case "frost-self":
 			c, err := attempt(k, msgs, rp.A, reader(rp.Mode, seed, rp.A.String(), 0))
 			fmt.Printf("replay frost-self mode=%s A: %s -> %+v %v\n", rp.Mode, rp.A, c, err)
@@ -429,6 +455,21 @@ func main() {
 				res.Hard(fmt.Sprintf("rng mode %s is not in force: two attempts on context [%s] under the same random bytes published different commitments (the library draws randomness the harness does not control)", mode, c))
 				ok = false
 				break
+			}
+			if mode == "honest" {
+				// two sessions started from the SAME start function value (the start function itself is
+				// created under the honest stream too: anything it samples early is then shared)
+				r1, r2, err := sameStartFunc(k, msgs, seed, mode, c)
+				starts += 2
+				if err != nil {
+					res.Hard(fmt.Sprintf("frost %s [%s] re-used start function: %v", mode, c, err))
+					ok = false
+					break
+				}
+				res.Case(fmt.Sprintf("same-startfunc|%s|%d", mode, i))
+				if sig, det := judgeFrostPair(k, msgs, seed, mode, c, c, &r1, &r2); sig != "" {
+					res.Violate(sig+"|start-function-reused", det+"\n(both sessions were started from one start function value)", replay{Kind: "frost-same-startfunc", Mode: mode, A: c, B: c})
+				}
 			}
 			if i < 2 {
 				res.Sample(map[string]interface{}{"kind": "frost", "rng": mode, "context": c, "D.x": cm.D, "E.x": cm.E, "second_attempt_equal": cm == cm2})
